@@ -17,16 +17,16 @@ class Prop:
             "callback site, and right after subscribe() returns. After dispose() returned: no notification, no instrumented callback, no new "
             "source subscription, and every source subscription opened for the subscriber closed by the end of that virtual instant. "
             "evaluations counts executed runs; distinct = (operators, dispose point, observed kinds); non-trivial = the dispose cut a live "
-            "subscription (the undisturbed run produced a later event). 8% of the scenarios use library sources (generate, range, from_iterable, "
+            "subscription (the undisturbed run produced a later event). 15% of the scenarios use library sources (generate, range, from_iterable, "
             "repeat_value, defer, create+subscribe_on) on the current-thread trampoline instead: subscribed from inside a trampolined "
-            "action so that their work queues up, then unsubscribed before it runs (explicitly, by a queued action, or by take(k)); no callback "
-            "of a source whose queued work had not started may run afterwards.")
+            "action so that their work queues up, then unsubscribed (explicitly - before the work runs, from a queued action, from inside a notification - or by take(k)); no "
+            "callback of any source may run afterwards.")
     assumptions = ["single thread / virtual time", "window and group subscribers are unsubscribed together with the root (the statement's exception for live group/window subscribers is not exercised strictly: a second variant leaves them alive and only checks root silence)",
                    "rogue sources excluded"]
     stubs = []
 
     def generate(self, rng, tier):
-        if rng.random() < 0.08:
+        if rng.random() < 0.15:
             return self.gen_trampoline(rng)
         depth = rng.choice([1, 1, 2, 2, 3])
         sc = pipe.gen(rng, depth, max_sources=3)
@@ -67,7 +67,8 @@ class Prop:
     def gen_trampoline(self, rng):
         return {"mode": "trampoline", "srcs": [{"kind": rng.choice(self.T_KINDS), "n": rng.randrange(1, 5)} for _ in range(rng.choice([1, 2, 2, 3]))],
                 "comb": rng.choice(["merge", "merge", "concat", "zip", "combine_latest", "amb", "flat_map"]),
-                "take": rng.choice([None, None, 1, 1, 2]), "dispose": rng.choice(["pre_queued", "pre_queued", "after_subscribe", None])}
+                "take": rng.choice([None, None, 1, 1, 2]), "dispose": rng.choice(["pre_queued", "pre_queued", "after_subscribe", "in_note", None]),
+                "note": rng.randrange(0, 3)}
 
     def exec_trampoline(self, sc):
         """The subscription is made from inside an action of the current-thread scheduler, so everything the library sources
@@ -139,6 +140,8 @@ class Prop:
             notes.append((tick[0], kind))
             if kind in "CE" and box["term"] is None:
                 box["term"] = tick[0]
+            if kind == "N" and sc["dispose"] == "in_note" and sum(1 for n_ in notes if n_[1] == "N") - 1 == sc.get("note", 0):
+                do_dispose()  # from inside the k-th on_next (only possible once subscribe() has handed the subscription back)
 
         def do_dispose():
             if box.get("sub") is not None and box["disp_ret"] is None:
@@ -178,10 +181,11 @@ class Prop:
             if late and not out.viol:
                 out.bad("callback-after-dispose", "%s: %s of source %d ran after dispose() had returned (the subscription was unsubscribed while that work was still queued)" % (desc, late[0][2], late[0][1]))
         elif box["term"] is not None:
-            # sources whose queued work had not started when the subscriber's terminal notification was delivered
-            fresh = [c for c in calls if c[0] > box["term"] and started[c[1]] > box["term"]]
-            if fresh:
-                out.bad("callback-after-dispose", "%s: %s of source %d ran after the subscriber had terminated; that source's queued work had not started by then" % (desc, fresh[0][2], fresh[0][1]))
+            # nothing of any source runs once the subscriber's terminal notification has been delivered: queued work is cancelled,
+            # a loop that is emitting right now stops without pulling another element
+            after = [c for c in calls if c[0] > box["term"]]
+            if after:
+                out.bad("callback-after-dispose", "%s: %s of source %d ran after the subscriber had terminated" % (desc, after[0][2], after[0][1]))
         out.info = {"scenario": desc, "calls": len(calls)}
         return out
 
